@@ -21,6 +21,8 @@ structure Account where
   deriving Repr, Inhabited, DecidableEq
 
 structure Config where
+  /-- wallets that exist without (yet) holding accounts -/
+  wallets : List String := []
   accounts : List Account := []
   access : Access := []
   adminIPs : List String := []
